@@ -309,7 +309,19 @@ func forgeOCSP(b ocspBehav, cert, issuer *Cert) ([]byte, string) {
 func ocspHandlerFor(b ocspBehav, cert, issuer *Cert) (rtHandler, string) {
 	switch b.Kind {
 	case "resp":
-		der, term := forgeOCSP(b, cert, issuer)
+		var der []byte
+		var term string
+		func() {
+			defer func() {
+				if r := recover(); r != nil { // the issuer's key cannot sign an OCSP response (an unsupported key kind in an invalid chain)
+					der, term = nil, "UErr"
+				}
+			}()
+			der, term = forgeOCSP(b, cert, issuer)
+		}()
+		if der == nil {
+			return func(*http.Request) (*http.Response, error) { return httpBody(500, nil) }, "UErr"
+		}
 		return func(*http.Request) (*http.Response, error) { return httpBody(200, der) }, term
 	case "transport":
 		return func(*http.Request) (*http.Response, error) { return nil, errors.New("connection refused (injected)") }, "UErr"
